@@ -323,6 +323,10 @@ def conformance(part: Part) -> None:
         [("append", 1), ("read", 0), ("append", 2), ("read", 1), ("read", 3), ("read", 0)],
         [("read", 0), ("append", 2), ("append", 1), ("read", 2), ("read", 5)],
         [("append", 1), ("append", 1), ("read", 1), ("read", 1), ("read", 0)],
+        # a torn tail (raw partial record) is repaired by the next append (truncate through the handle)
+        [("append", 1), ("tear",), ("read", 0), ("append", 1), ("read", 0)],
+        # os.truncate by path: shrinking and extending (NUL padding)
+        [("append", 2), ("ostrunc", -5), ("rawsize",), ("ostrunc", +3), ("rawsize",)],
     ]
     for lock in ("sym", "open"):
         for seq in seqs:
@@ -346,6 +350,16 @@ def conformance(part: Part) -> None:
                         b.append_logs([rec(0, k, j) for j in range(call[1])])
                         k += 1
                         out.append(None)
+                    elif call[0] == "tear":
+                        with getattr(jf, "open", open)(path, "ab") as fh:  # the module's own open: fake or real
+                            fh.write(b'{"op_code": 4, "torn')
+                        out.append(None)
+                    elif call[0] == "ostrunc":
+                        size = jf.os.stat(path).st_size
+                        jf.os.truncate(path, size + call[1])
+                        out.append(None)
+                    elif call[0] == "rawsize":
+                        out.append(jf.os.stat(path).st_size)
                     else:
                         out.append(b.read_logs(call[1]))
                 if mode == "sim":
